@@ -105,6 +105,23 @@ fn mutate_doc(rng: &mut Rng, v: &mut serde_json::Value) {
     }
 }
 
+/// JSON text of `v` with the keys of every object in a random order
+fn to_string_shuffled(rng: &mut Rng, v: &serde_json::Value) -> String {
+    match v {
+        serde_json::Value::Object(m) => {
+            let mut keys: Vec<&String> = m.keys().collect();
+            for i in (1..keys.len()).rev() {
+                let j = rng.below(i as u64 + 1) as usize;
+                keys.swap(i, j);
+            }
+            let parts: Vec<String> = keys.iter().map(|k| format!("{}:{}", serde_json::Value::String((*k).clone()), to_string_shuffled(rng, &m[*k]))).collect();
+            format!("{{{}}}", parts.join(","))
+        }
+        serde_json::Value::Array(a) => format!("[{}]", a.iter().map(|x| to_string_shuffled(rng, x)).collect::<Vec<_>>().join(",")),
+        other => other.to_string(),
+    }
+}
+
 pub fn run(tier: &str, seed: u64, dir: &str) {
     let mut rng = Rng::new(seed);
     let mut sink = Sink::new(dir);
@@ -198,9 +215,22 @@ pub fn run(tier: &str, seed: u64, dir: &str) {
             let r = rng.next() as u32;
             v["fcnt_up"] = json!(*rng.pick(&[0u32, 1, 0xffff, 0x1_0000, 0xffff_fffe, 0xffff_ffff, r]));
         }
-        let doc = v.to_string();
+        // pending answers of every length 0..=15 (octets beyond the length are zero, as the
+        // serialiser writes them), the owed-ACK flag, the ADR counter and "no downlink yet"
+        if v.get("uplink").map(|u| u.is_object()).unwrap_or(false) {
+            let len = (k % 16) as usize;
+            let mut data = rng.bytes(len);
+            data.resize(15, 0);
+            v["uplink"]["pending_len"] = json!(len);
+            v["uplink"]["pending_data"] = json!(data);
+            v["uplink"]["confirmed"] = json!(rng.chance(1, 2));
+        }
+        // a document is a map: the order of its keys carries no meaning (a store that re-emits the
+        // document, `serde_json::Value`, a sorted or a hashed map all reorder them). Every second
+        // document has its keys in a random order at every level.
+        let (doc, class) = if k % 2 == 0 { (v.to_string(), "well-formed-document-values") } else { (to_string_shuffled(&mut rng, &v), "well-formed-document-key-order") };
         let op = format!("C20 docrt {} {}", rng.pick(&REGIONS), hex(doc.as_bytes()));
-        sink.case(&op, &eval(&op), "well-formed-document-values", true);
+        sink.case(&op, &eval(&op), class, true);
     }
-    sink.finish(dir, "MAC histories with a serialise/deserialise round trip of the session after every event (restored session must equal the original in every field and the run must continue exactly like the model's unsaved twin), starting counters at 16/32-bit boundaries, pending answers up to 15 bytes; plus structurally mutated JSON documents (type changes, missing/duplicate/extra fields, pending_len 0..255, arrays of 14/15/16, huge numbers): rejected, or accepted and then exercised without panic; plus well-formed documents over the value space of keys (any octets), address and counters: accepted and re-serialised to the same JSON value. Non-trivial = every case.", false, serde_json::json!({}));
+    sink.finish(dir, "MAC histories with a serialise/deserialise round trip of the session after every event (restored session must equal the original in every field and the run must continue exactly like the model's unsaved twin), starting counters at 16/32-bit boundaries, pending answers up to 15 bytes; plus structurally mutated JSON documents (type changes, missing/duplicate/extra fields, pending_len 0..255, arrays of 14/15/16, huge numbers): rejected, or accepted and then exercised without panic; plus well-formed documents over the value space of keys (any octets), address, counters, pending answers of every length and the owed-ACK flag, half of them with the keys of every object in a random order: accepted and re-serialised to the same JSON value. Non-trivial = every case.", false, serde_json::json!({}));
 }
